@@ -196,7 +196,7 @@ impl Symbol {
 pub struct MacroDefinition {
     id: Located<Identifier>,
     args: Vec<Located<Identifier>>,
-    block: Vec<Token>,
+    block: Block,
 }
 
 /// How deep macro invocations may be nested
@@ -1182,7 +1182,7 @@ impl CodegenContext {
                         MacroDefinition {
                             id: id.clone(),
                             args,
-                            block: block.inner.clone(),
+                            block: block.clone(),
                         },
                         SymbolType::Constant,
                     ),
@@ -1237,7 +1237,8 @@ impl CodegenContext {
                     }
 
                     self.macro_depth += 1;
-                    let result = self.with_scope(&macro_scope, None, |s| {
+                    // (the body is a block like any other, with a '-' and a '+' of its own)
+                    let result = self.with_scope(&macro_scope, Some(&def.block), |s| {
                         for (idx, arg_name) in def.args.iter().enumerate() {
                             // Regardless if evaluation succeeded, we should create the macro argument symbol here, because
                             // it will be undefined otherwise
@@ -1248,7 +1249,7 @@ impl CodegenContext {
                             )?;
                         }
 
-                        s.emit_tokens(&def.block)?;
+                        s.emit_tokens(&def.block.inner)?;
 
                         if s.options.move_macro_source_map_to_invocation {
                             // Move all source map offsets that refer to the macro definition's span to the macro invocation's span
@@ -1657,7 +1658,7 @@ impl CodegenContext {
                         // Just like a real invocation the body gets a scope of its own, in which the arguments exist.
                         // Otherwise the symbols the macro defines would end up in (and clash with) the root scope.
                         let macro_scope = s.next_macro_scope(def.id.span);
-                        let _ = s.with_scope(&macro_scope, None, |s| {
+                        let _ = s.with_scope(&macro_scope, Some(&def.block), |s| {
                             for arg_name in &def.args {
                                 let _ = s.add_symbol(
                                     &arg_name.data,
@@ -1668,7 +1669,7 @@ impl CodegenContext {
                                     ),
                                 );
                             }
-                            s.emit_tokens(&def.block)
+                            s.emit_tokens(&def.block.inner)
                         });
                     }
                 }
